@@ -107,38 +107,13 @@ def pe_effects(o):
 def check(model, R, tier):
     module = model.cls(MOD)
     # ---------------------------------------------------------------- REG-EXCLUSIVE
-    R.rule('C12.REG-EXCLUSIVE', 'on every branch of Module.__setattr__ the name ends up in at most one registry: Module branch sets _submodules and removes from _parameters, '
-                                'Parameter branch the reverse, plain values are removed from both', floor=3)
-    sa = model.func(MOD + '.__setattr__')
-    want = {'Module': {('_submodules', 'set'), ('_parameters', 'pop')}, 'Parameter': {('_parameters', 'set'), ('_submodules', 'pop')},
-            'plain': {('_parameters', 'pop'), ('_submodules', 'pop')}}
-    nm, vl = sa.pos_params[1], sa.pos_params[2]
-    base = {"hasattr(self, '_initialized')": True, 'self._initialized': True, "'_parameters' in self.__dict__": True, "'_submodules' in self.__dict__": True,
-            "hasattr(self, '_parameters')": True, "hasattr(self, '_submodules')": True}
-    for k, w in want.items():
-        preds = dict(base)
-        preds['isinstance(%s, Module)' % vl] = k == 'Module'
-        preds['isinstance(%s, Parameter)' % vl] = k == 'Parameter'
-        preds['isinstance(%s, (Module, Parameter))' % vl] = preds['isinstance(%s, (Parameter, Module))' % vl] = k != 'plain'
-        try:
-            outs = PE(model, preds=preds).paths(sa, {})
-        except Incomplete as u:
-            R.incomplete_at('C12.REG-EXCLUSIVE', sa.qualname, 'path evaluation of the %s case: %s' % (k, u))
-            continue
-        for o in outs:
-            eff = pe_effects(o)
-            extra = [c for c in o.conds if c[0] not in preds]
-            R.ob('C12.REG-EXCLUSIVE', sa.qualname, '%s value%s: %s' % (k, ' under %s' % extra if extra else '', sorted(eff)), o.kind != 'raise' and eff == w,
-                 'assigning a %s value must leave the registries as %s (got %s, path ends in %s): otherwise a replaced attribute stays registered (still returned by parameters() / submodules())'
-                 % (k, sorted(w), sorted(eff), o.kind), sa.loc)
+    R.rule('C12.REG-EXCLUSIVE', 'after `module.x = value` the name x is registered in exactly the registry of the new value\'s kind (neither for a plain value), whatever x was before '
+                                '(parameter / submodule / plain attribute / absent) [Module.__setattr__ evaluated on a module tree: 12 cases]', floor=12)
+    from sa.rules_modtree import check_world
+    check_world(model, R, 'C12', rules=('REG',))
     # ---------------------------------------------------------------- ORDER
-    R.rule('C12.ORDER', 'registries are insertion-ordered mappings written only by __init__/register_*/__setattr__; register_* check initialisation and type first; '
-                        'submodules() and parameters() enumerate them in order (own parameters first)', floor=8)
-    init = model.func(MOD + '.__init__')
-    for r in REGS:
-        st = [n for n in body_walk(init.node) if isinstance(n, ast.Assign) and norm(n.targets[0]) == 'self.' + r]
-        ok = len(st) == 1 and norm(st[0].value) in ('OrderedDict()', 'dict()', '{}', 'collections.OrderedDict()')
-        R.ob('C12.ORDER', init.qualname, 'self.%s = %s' % (r, norm(st[0].value) if st else None), ok, 'registries must be insertion ordered mappings', init.loc)
+    R.rule('C12.ORDER', 'registries are insertion-ordered mappings written only by __init__/register_*/__setattr__ (who-may-write); register_* refuse an uninitialised module and a '
+                        'value of the wrong type, otherwise append name -> value and drop the name from the other registry; submodules() lists them in order [evaluated on a module tree]', floor=12)
     allowed = {MOD + '.__init__', MOD + '.register_module', MOD + '.register_parameter', MOD + '.__setattr__'}
     for fn in model.live_funcs():
         if fn.mod.modname.startswith('synapgrad.nn') or fn.mod.modname.startswith('synapgrad.optim'):
@@ -147,48 +122,11 @@ def check(model, R, tier):
             assigns = [n for n in body_walk(fn.node) if isinstance(n, ast.Assign) and any(isinstance(t, ast.Attribute) and t.attr in REGS for t in n.targets)]
             if direct or assigns:
                 R.ob('C12.ORDER', fn.qualname, 'writes registries: %s' % sorted(eff), fn.qualname in allowed, 'registries may only be written by the Module base class', fn.loc)
-    for name, typ in (('register_module', 'Module'), ('register_parameter', 'Parameter')):
-        f = model.func('%s.%s' % (MOD, name))
-        cfg = CFG(f.node)
-        stores = [n for n in body_walk(f.node) if isinstance(n, ast.Assign) and any(isinstance(t, ast.Subscript) and norm(t.value) in ('self._submodules', 'self._parameters') for t in n.targets)]
-        chk = [n for n in body_walk(f.node) if isinstance(n, ast.Expr) and norm(n.value) == 'self.check_is_initialized()']
-        tg = [n for n in body_walk(f.node) if isinstance(n, ast.If) and 'isinstance' in norm(n.test) and typ in norm(n.test) and any(isinstance(x, ast.Raise) for x in n.body)
-              and isinstance(n.test, ast.UnaryOp)]
-        ok = len(stores) == 1 and chk and tg and cfg.dominates(chk[0], stores[0]) and cfg.dominates(tg[0], stores[0])
-        R.ob('C12.ORDER', f.qualname, 'initialised + type check before %s' % (norm(stores[0]) if stores else None), bool(ok), 'registration must be refused before super().__init__() ran and for values of the wrong type', f.loc)
-        if stores:
-            key = stores[0].targets[0].slice
-            val = stores[0].value
-            R.ob('C12.ORDER', f.qualname, norm(stores[0]), norm(key) == f.pos_params[1] and norm(val) == f.pos_params[2], 'the registry entry must be name -> value as given', f.loc)
-    sub = model.func(MOD + '.submodules')
-    rets = [n for n in body_walk(sub.node) if isinstance(n, ast.Return)]
-    rv = inline_expr(sub.node, rets[0].value) if len(rets) == 1 else None
-    ok = False
-    if rv is not None:
-        if isinstance(rv, ast.Call) and dotted(rv.func) in ('list', 'tuple') and len(rv.args) == 1 and norm(rv.args[0]) == 'self._submodules.values()':
-            ok = True
-        if isinstance(rv, ast.ListComp) and len(rv.generators) == 1 and not rv.generators[0].ifs and norm(rv.generators[0].iter) == 'self._submodules.values()' and norm(rv.elt) == norm(rv.generators[0].target):
-            ok = True
-    R.ob('C12.ORDER', sub.qualname, norm(rets[0].value) if rets else 'no return', ok, 'submodules() must list every registered submodule in registration order', sub.loc)
+    check_world(model, R, 'C12', rules=('ORDER',))
     # ---------------------------------------------------------------- ONCE
-    R.rule('C12.ONCE', 'parameters() = own parameters, then each submodule\'s, each reported once: every extension of the returned list is guarded by an identity-membership test; '
-                       'num_params iterates parameters() and splits on requires_grad into complementary counters', floor=3)
-    pf = model.func(MOD + '.parameters')
-    check_parameters(model, R, pf)
-    npf = model.func(MOD + '.num_params')
-    loops = [n for n in body_walk(npf.node) if isinstance(n, ast.For)]
-    ok = len(loops) == 1 and norm(loops[0].iter) == 'self.parameters()'
-    if ok:
-        lp = loops[0]
-        v = norm(lp.target)
-        cfg = CFG(npf.node)
-        incs = [n for n in ast.walk(lp) if isinstance(n, ast.AugAssign) and isinstance(n.op, ast.Add)]
-        total = [n for n in incs if not [c for c in cfg.conditions(n) if v in norm(c[0])]]
-        tr = [n for n in incs if ('%s.requires_grad' % v, True) in {(t, p) for t, p, _ in facts_at(cfg, n)}]
-        fr = [n for n in incs if ('%s.requires_grad' % v, False) in {(t, p) for t, p, _ in facts_at(cfg, n)}]
-        ok = len(total) == 1 and len(tr) == 1 and len(fr) == 1 and all(norm(n.value) in ('%s.size' % v, '%s.numel()' % v, '%s.data.size' % v) for n in incs) \
-            and len({norm(n.target) for n in incs}) == 3
-    R.ob('C12.ONCE', npf.qualname, 'total / trainable / frozen counters over self.parameters()', ok, 'each parameter element must be counted once, in exactly one of trainable / non-trainable', npf.loc)
+    R.rule('C12.ONCE', 'parameters() = own parameters, then each submodule\'s (registration order, depth first), every object once also when a parameter or a submodule is shared; '
+                       'num_params counts each parameter of that list once, in exactly one of trainable / non-trainable [evaluated on a module tree with shared objects]', floor=5)
+    check_world(model, R, 'C12', rules=('ONCE',))
     check_mode(model, R, 'C12')
     check_super_roles(model, R, 'C12')
     # ---------------------------------------------------------------- SUBCLASS
@@ -218,134 +156,22 @@ def check(model, R, tier):
                 why = 'no forward implementation'
         R.ob('C12.SUBCLASS', c.qualname, 'base-class discipline', ok, why, c.loc)
     # ---------------------------------------------------------------- SEQ
-    R.rule('C12.SEQ', 'Sequential registers its arguments in order, threads one value through submodules() in order and returns it (identity when empty)', floor=3)
-    sq = model.cls(MMOD + '.Sequential')
-    si, sf = sq.methods['__init__'], sq.methods['forward']
-    regs = [n for n in ast.walk(si.node) if isinstance(n, ast.Call) and norm(n.func) == 'self.register_module']
-    ok = len(regs) == 2
-    for r in regs:
-        st = next(s for s in ast.walk(si.node) if isinstance(s, ast.Expr) and s.value is r)
-        loops = CFG(si.node).in_loop(st)
-        if not loops:
-            ok = False
-            continue
-        it = norm(loops[0].iter)
-        ok = ok and (it == 'enumerate(modules)' and norm(r.args[0]) in ('str(idx)', 'str(i)') or it == 'modules[0].items()')
-    R.ob('C12.SEQ', si.qualname, 'registration loops: %s' % [norm(r) for r in regs], ok, 'submodules must be registered in argument / mapping order under distinct names', si.loc)
-    loops = [n for n in sf.node.body if isinstance(n, ast.For)]
-    ok = len(loops) == 1 and norm(loops[0].iter) == 'self.submodules()'
-    if ok:
-        lp = loops[0]
-        m = norm(lp.target)
-        b = lp.body
-        # single threaded value: v = m(v)   (or out = m(inp); inp = out)
-        thread = len(b) == 1 and isinstance(b[0], ast.Assign) and isinstance(b[0].value, ast.Call) and norm(b[0].value.func) == m and len(b[0].value.args) == 1 \
-            and norm(b[0].value.args[0]) == norm(b[0].targets[0])
-        thread2 = len(b) == 2 and all(isinstance(s, ast.Assign) for s in b) and isinstance(b[0].value, ast.Call) and norm(b[0].value.func) == m and norm(b[1].value) == norm(b[0].targets[0]) \
-            and norm(b[1].targets[0]) == norm(b[0].value.args[0])
-        ok = thread or thread2
-        last = sf.node.body[-1]
-        ok = ok and isinstance(last, ast.Return) and norm(last.value) in (norm(b[0].targets[0]), norm(b[-1].targets[0]))
-    R.ob('C12.SEQ', sf.qualname, 'left-to-right composition over self.submodules()', ok, 'forward must apply the submodules in registration order to one threaded value', sf.loc)
-    ub = [(n, s) for n, s in maybe_unbound(sf.node)]
-    R.ob('C12.SEQ', sf.qualname, 'returned name definitely assigned (%s)' % [n for n, _ in ub], not ub, 'with zero submodules the returned name is unbound (UnboundLocalError): an empty Sequential must be the identity', sf.loc)
+    R.rule('C12.SEQ', 'Sequential registers its arguments (positional or one ordered mapping) in order and its forward is the left-to-right composition of the registered modules '
+                      '(identity when empty) [constructor and forward evaluated on concrete layer objects]', floor=6)
+    check_world(model, R, 'C12', rules=('SEQ',))
     return dict(
         explanation='Module trees are programs; the registries are maintained by ~70 lines of nn/modules.py. Decides: registry effects of every __setattr__ branch (exclusive registration, replacement), '
                     'who may write the registries, ordering and identity de-duplication of parameters(), counters of num_params, recursion and constants of train()/eval(), loops of zero_grad/freeze/unfreeze, '
                     'base-class discipline of all %d Module subclasses, Sequential registration order / composition / definite assignment. Dynamic registration by user code through object.__setattr__ is outside the package.' % len(subs),
         assumptions=['OrderedDict / dict preserve insertion order', 'user subclasses follow the same discipline as the package\'s own'],
-        technique='registry effects on partially evaluated paths + who-may-write + CFG dominance + definite-assignment dataflow')
-
-
-def check_parameters(model, R, pf):
-    # parameters() is a pure function of the registries: a cached list kept on the module goes stale when a nested child changes later
-    writes = []
-    for n in body_walk(pf.node):
-        tg = n.targets if isinstance(n, ast.Assign) else ([n.target] if isinstance(n, (ast.AugAssign, ast.AnnAssign)) else [])
-        for t in tg:
-            base = t
-            while isinstance(base, (ast.Subscript, ast.Attribute)):
-                base = base.value
-            if isinstance(base, ast.Name) and base.id == pf.pos_params[0] and not isinstance(t, ast.Name):
-                writes.append(norm(n)[:60])
-        if isinstance(n, ast.Call) and norm(n.func) in ('setattr', 'object.__setattr__') and n.args and norm(n.args[0]) == pf.pos_params[0]:
-            writes.append(norm(n)[:60])
-    R.ob('C12.ONCE', pf.qualname, 'parameters() keeps no state on the module: %s' % (writes or 'no writes'), not writes,
-         'a parameter list cached on the module is not invalidated when a descendant registers / replaces a parameter later: optimizers and zero_grad built from it miss the new leaves', pf.loc)
-    rets = [n for n in body_walk(pf.node) if isinstance(n, ast.Return)]
-    if len(rets) != 1 or not isinstance(rets[0].value, ast.Name):
-        R.incomplete_at('C12.ONCE', pf.qualname, 'parameters() does not return a single named list')
-        return
-    res = rets[0].value.id
-    cfg = CFG(pf.node)
-    # source: own parameters first, then submodules in order
-    src = norm(pf.node)
-    own = [n for n in body_walk(pf.node) if isinstance(n, ast.Assign) and 'self._parameters.values()' in norm(n.value)]
-    subl = [n for n in body_walk(pf.node) if isinstance(n, ast.For) and norm(n.iter) == 'self.submodules()']
-    rec = [c for l in subl for c in ast.walk(l) if isinstance(c, ast.Call) and norm(c.func) == '%s.parameters' % norm(l.target)]
-    ok = len(own) == 1 and len(subl) == 1 and len(rec) == 1 and cfg.dominates(own[0], subl[0])
-    R.ob('C12.ONCE', pf.qualname, 'own parameters, then each submodule\'s parameters()', ok, 'parameters() must collect own parameters first and then recurse into every submodule in order', pf.loc)
-    # every growth of the returned list is identity guarded
-    grows = []
-    for n in body_walk(pf.node):
-        if isinstance(n, ast.Expr) and isinstance(n.value, ast.Call) and isinstance(n.value.func, ast.Attribute) and n.value.func.attr in ('append', 'extend', 'insert') \
-                and norm(n.value.func.value) == res:
-            grows.append((n, n.value.args[-1] if n.value.args else None, n.value.func.attr))
-        if isinstance(n, ast.AugAssign) and norm(n.target) == res:
-            grows.append((n, n.value, '+='))
-        if isinstance(n, ast.Assign) and norm(n.targets[0]) == res and not (isinstance(n.value, (ast.List,)) and not n.value.elts) and norm(n.value) not in ('list()', '[]'):
-            grows.append((n, n.value, '='))
-    ok = bool(grows)
-    why = 'a parameter (or submodule) shared between two parents would be reported twice: num_params double-counts it and an optimizer updates it twice per step'
-    for st, val, how in grows:
-        if how != 'append':
-            ok = False
-            continue
-        fs = facts_at(cfg, st)
-        v = norm(val)
-        guarded = False
-        inl = lambda x: norm(inline_expr(pf.node, x))
-        for t, p, e in fs:
-            if isinstance(e, ast.Compare) and len(e.ops) == 1 and inl(e.left) == 'id(%s)' % v and ((isinstance(e.ops[0], ast.NotIn) and p) or (isinstance(e.ops[0], ast.In) and not p)):
-                seen = norm(e.comparators[0])
-                marks = [m for m in body_walk(pf.node) if isinstance(m, ast.Expr) and isinstance(m.value, ast.Call) and norm(m.value.func) == '%s.add' % seen
-                         and len(m.value.args) == 1 and inl(m.value.args[0]) == 'id(%s)' % v and cfg.in_loop(m) and cfg.in_loop(st) and cfg.in_loop(m)[0] is cfg.in_loop(st)[0]
-                         and not [c_ for c_ in cfg.conditions(m) if c_ not in cfg.conditions(st)]]
-                guarded = bool(marks)
-            if isinstance(e, ast.Call) and dotted(e.func) == 'any' and not p and (' is ' in t) and v in t and res in t:
-                guarded = True
-        ok = ok and guarded
-    R.ob('C12.ONCE', pf.qualname, 'growth of %s: %s' % (res, [norm(g[0]) for g in grows]), ok, why, pf.loc)
+        technique='partial evaluation of nn/modules.py on a heap of module / parameter objects with shared members (registries as ordered dicts) + who-may-write over the call graph + CFG dominance for subclass constructors')
 
 
 def check_mode(model, R, P):
-    # ---------------------------------------------------------------- MODE
-    R.rule(P + '.MODE', 'train()/eval() set self.training, recurse into every submodule with the same method and return self; zero_grad/freeze/unfreeze act on parameters() only', floor=5)
-    for name, val in (('train', True), ('eval', False)):
-        f = model.func('%s.%s' % (MOD, name))
-        cfg = CFG(f.node)
-        sets = [n for n in body_walk(f.node) if isinstance(n, ast.Assign) and norm(n.targets[0]) == 'self.training']
-        loops = [n for n in body_walk(f.node) if isinstance(n, ast.For) and norm(n.iter) == 'self.submodules()']
-        ok = len(sets) == 1 and isinstance(sets[0].value, ast.Constant) and sets[0].value.value is val and not cfg.conditions(sets[0])
-        ok2 = len(loops) == 1
-        if ok2:
-            v = norm(loops[0].target)
-            calls = [s for s in loops[0].body if isinstance(s, ast.Expr) and norm(s.value) == '%s.%s()' % (v, name)]
-            ok2 = len(calls) == 1 and len(loops[0].body) == 1 and not cfg.conditions(loops[0])
-        last = f.node.body[-1]
-        ok3 = isinstance(last, ast.Return) and norm(last.value) == 'self'
-        R.ob(P + '.MODE', f.qualname, 'self.training = %s; recurse %s(); return self' % (val, name), ok and ok2 and ok3,
-             '%s() must set the flag unconditionally, call %s() on every submodule and return self' % (name, name), f.loc)
-    for name, body_ok in (('zero_grad', None), ('freeze', ('requires_grad', False)), ('unfreeze', ('requires_grad', True))):
-        f = model.func('%s.%s' % (MOD, name))
-        loops = [n for n in f.node.body if isinstance(n, ast.For)]
-        rest = [n for n in f.node.body if not isinstance(n, ast.For) and not (isinstance(n, ast.Expr) and isinstance(n.value, ast.Constant))]
-        ok = len(loops) == 1 and not rest and norm(loops[0].iter) == 'self.parameters()'
-        if ok and body_ok:
-            v = norm(loops[0].target)
-            b = loops[0].body
-            ok = len(b) == 1 and isinstance(b[0], ast.Assign) and norm(b[0].targets[0]) == '%s.%s' % (v, body_ok[0]) and isinstance(b[0].value, ast.Constant) and b[0].value.value is body_ok[1]
-        R.ob(P + '.MODE', f.qualname, 'loop over self.parameters()', ok, '%s must act on exactly the parameters reported by parameters()' % name, f.loc)
+    R.rule(P + '.MODE', 'train()/eval() set the training flag of every module of the tree and return self; zero_grad/freeze/unfreeze act on exactly the parameters of parameters() '
+                        '[evaluated on a module tree with shared objects]', floor=5)
+    from sa.rules_modtree import check_world
+    check_world(model, R, P, rules=('MODE',))
 
 
 def check_super_roles(model, R, P):
